@@ -484,6 +484,10 @@ class DFunction(Saveable, DataSaveable):
         """
         if not self._splines_initialized:
             self._set_splines()
+        # the splines are kept in terms of the internal values of the axis:
+        # the argument comes in the units current for the caller
+        if isinstance(self.axis, FrequencyAxis):
+            x = self.axis.convert_2_internal_u(x)
         return self._spline_value(x)
 
     def _set_splines(self):
@@ -491,13 +495,17 @@ class DFunction(Saveable, DataSaveable):
 
 
         """
+        # (the splines outlive the units context in which they are first 
+        # needed: they are built on the internal values of the axis)
+        with energy_units("int"):
+            xdata = self.axis.data
         self._spline_r = \
                scipy.interpolate.UnivariateSpline(
-                  self.axis.data, numpy.real(self.data),s=0)
+                  xdata, numpy.real(self.data),s=0)
         if self._has_imag:
             self._spline_i = \
                scipy.interpolate.UnivariateSpline(
-                  self.axis.data, numpy.imag(self.data),s=0)
+                  xdata, numpy.imag(self.data),s=0)
 
         self._splines_initialized = True
         #print("Calculating splines")
